@@ -1034,8 +1034,7 @@ func (d *drv) runVerifyCase(k kase) {
 	accepted := val.ok && class == "ok"
 	if accepted {
 		rep.Count("verify_accepted", 1)
-		// a non-adjacent header rests on the trusted power only if its commit is the header's own
-		if !refV || (!adjacent && !ref.all()) {
+		if !refV {
 			kind := "untrusted"
 			if adjacent {
 				kind = "unlinked"
@@ -1045,6 +1044,12 @@ func (d *drv) runVerifyCase(k kase) {
 					map[bool]string{true: "does not link to the trusted header", false: "is not signed by more than 1/3 of the trusted validators"}[adjacent]),
 				d.replay(k, "verify"))
 		}
+	}
+	if val.ok && !ref.all() {
+		// (the trusted power of a non-adjacent header counts only if its commit is the header's own)
+		rep.Violate("C16/validate/accepts-inconsistent:"+ref.failing(),
+			fmt.Sprintf("Validate accepted %s although the header is not consistent (%s fails the independent evaluation)", k.id(), ref.failing()),
+			d.replay(k, "validate"))
 	}
 	if len(k.M) == 0 && class != "ok" {
 		rep.Violate("C16/verify/rejects-valid-chain", fmt.Sprintf("Verify rejected the honest pair %s: %s", k.id(), msg), d.replay(k, "verify"))
@@ -1153,4 +1158,43 @@ func TestDriver(t *testing.T) {
 	close(jobs)
 	wg.Wait()
 	rep.Set("cases", len(in.Cases))
+	d.probes()
+}
+
+// probes: inputs outside the statement of C16 (nothing there says "never panics"); what the real code does
+// with them is recorded in the evidence, never alarmed.
+func (d *drv) probes() {
+	for c, ch := range d.chains {
+		if len(ch) < 2 {
+			continue
+		}
+		// (1) a header without commit, as JSON `"commit": null` yields it
+		eh := d.build(ch[1])
+		eh.Commit = nil
+		o := validate(eh)
+		d.rep.Set("probe_nil_commit", map[bool]string{true: "Validate PANICS on a nil Commit: " + strings.SplitN(o.err, "\n", 2)[0], false: "Validate returns: " + o.err}[o.panicked])
+		// (2) a self-consistent forgery whose voting powers overflow the total; protobuf decoding refuses
+		// it, JSON decoding does not
+		h := ch[1].clone()
+		h.vals, h.valsTouched = []valE{{id: 8, power: types.MaxTotalVotingPower}, {id: 9, power: types.MaxTotalVotingPower}}, true
+		h.raw.ValidatorsHash = valsetHash(d.valset(h))
+		h.cBlock.Hash = h.raw.Hash()
+		d.signAll(h, func(k int) int { return h.vals[k].id }, d.t2(h))
+		direct := validate(d.build(h))
+		res := "direct: " + direct.stage
+		for _, e := range encodings {
+			h2, err := roundTrip(e, d.build(h))
+			if err != nil {
+				res += "; " + e.name + ": refused by the codec"
+				continue
+			}
+			o2 := validate(h2)
+			res += "; " + e.name + ": " + o2.stage
+			if o2.ok {
+				d.rep.Violate("C16/validate/accepts-overflowing-powers", "a validator set whose total power overflows is accepted after "+e.name+" decoding", map[string]any{"chain": c})
+			}
+		}
+		d.rep.Set("probe_overflowing_powers", res)
+		return
+	}
 }
